@@ -5,7 +5,7 @@ import (
 )
 
 func obSaveMonotone(c *rules.Ctx, id string, r *rules.Roles) {
-	ob := c.R.Ob(id, "subguard/save", "save only lowers a balance: the amount subtracted is tested non-negative first, and the balance is set to zero only where its value at entry was tested positive", 2)
+	ob := c.R.Ob(id, "subguard/save", "save only lowers a balance: the amount subtracted is tested non-negative first, and the balance is set to zero only where its value at entry was tested positive", 1)
 	c.SaveMonotone(ob, r)
 }
 
